@@ -685,11 +685,11 @@ func init() {
 	reg("sthd", func(t *rapid.T, _ int) boxR { return boxR{} }, func(r *boxR) (mp4.Box, error) { return &mp4.SthdBox{}, nil })
 	reg("nmhd", func(t *rapid.T, _ int) boxR { return boxR{} }, func(r *boxR) (mp4.Box, error) { return &mp4.NmhdBox{}, nil })
 	reg("url ", func(t *rapid.T, _ int) boxR {
-		return boxR{N: []int64{gBit(t, "location")}, S: []string{genText(t, "location", 20)}}
+		return boxR{N: []int64{gBit(t, "location"), gBit(t, "noZero")}, S: []string{genText(t, "location", 20)}}
 	}, func(r *boxR) (mp4.Box, error) {
 		u := mp4.CreateURLBox()
 		if r.n(0) == 1 {
-			u.Flags, u.NoLocation, u.Location = 0, false, r.s(0)
+			u.Flags, u.NoLocation, u.Location, u.NoZeroTermination = 0, false, r.s(0), r.n(1) == 1
 		}
 		return u, nil
 	})
@@ -1085,12 +1085,19 @@ func init() {
 		b := mp4.NewTrakBox()
 		return b, kidsInto(r, 0, b.AddChild)
 	})
+	reg("trak-empty", func(t *rapid.T, _ int) boxR {
+		return boxR{N: []int64{gU32(t, "track"), gU32(t, "timescale")},
+			S: []string{rapid.SampledFrom([]string{"video", "audio", "subtitle", "text", "meta", "clcp", "vide", "soun", "subt", "wvtt", "stpp"}).Draw(t, "media"),
+				rapid.SampledFrom([]string{"und", "eng", "sv", "en-US"}).Draw(t, "lang")}}
+	}, func(r *boxR) (mp4.Box, error) {
+		return mp4.CreateEmptyTrak(u32(r.n(0)), u32(r.n(1)), r.s(0), r.s(1)), nil
+	})
 	reg("moov", func(t *rapid.T, d int) boxR {
 		r := boxR{K: []boxR{genBox(t, "mvhd", d+1)}}
 		for i, n := 0, rapid.IntRange(1, 2).Draw(t, "nTrak"); i < n; i++ {
-			r.K = append(r.K, genBox(t, "trak", d+1))
+			r.K = append(r.K, genOneOf(t, "trakKind", d+1, "trak", "trak", "trak-empty"))
 		}
-		r.K = append(r.K, genSome(t, "moovKid", d+1, 2, "udta", "pssh", "meta", "free")...)
+		r.K = append(r.K, genSome(t, "moovKid", d+1, 2, "udta", "pssh", "meta", "free", "mvex")...)
 		return r
 	}, func(r *boxR) (mp4.Box, error) {
 		b := mp4.NewMoovBox()
